@@ -77,6 +77,14 @@ def step (s : S) (ws : List String) : S × String :=
         | .ok (b1, out) => ({ s with bay := b1 }, s!"ok {out}")
         | .error _ => (s, "err")
     | _, _, _ => (s, "bad-op")
+  | "cputrack" :: sel :: dflt :: raws =>
+    match sel.toNat?, parseVal dflt, raws.mapM (·.toNat?) with
+    | some sel, some d, some rs =>
+      if rs.isEmpty ∨ sel ≥ b.chans.length ∨ rs.any (· ≥ b.chans.length) then (s, "err")
+      else match b.trackCpu sel rs d with
+        | .ok (b1, out) => ({ s with bay := b1 }, s!"ok {out}")
+        | .error _ => (s, "err")
+    | _, _, _ => (s, "bad-op")
   | ["set", c, v] =>
     match c.toNat?, parseVal v with
     | some c, some v => res s (b.chanSet c v)
